@@ -20,9 +20,17 @@ def run_impl(case):
     ratio = wdw // cdw
     lr = ratio.bit_length() - 1
     caw = rnd.randint(max(1, lr), lr + 5)
+    tiny = lr >= 2 and lib.rng_for(case["seed"], case["idx"], 1020).random() < .2
+    if tiny:
+        caw = lib.rng_for(case["seed"], case["idx"], 1021).randint(1, lr - 1)    # a CSR bus smaller than one Wishbone word
     cbus = csr.Interface(addr_width=caw, data_width=cdw)
     cbus.memory_map = MemoryMap(addr_width=caw, data_width=cdw)
-    dut = WishboneCSRBridge(cbus, data_width=wdw if rnd.random() < .8 or ratio > 1 else None)
+    try:
+        dut = WishboneCSRBridge(cbus, data_width=wdw if rnd.random() < .8 or ratio > 1 else None)
+    except ValueError:
+        if tiny:
+            return {"skip": True}        # refused: fine. If it is accepted it has to behave like any other bridge
+        raise
     wb = dut.wb_bus
     aw = len(wb.adr)
     sim = simutil.simulator(simutil.wrap(dut), case)
